@@ -117,10 +117,10 @@ def syntax_faults(r):
 
 HOSTS = ["bare", "tuple-field", "list-element", "call-argument", "select-arm", "function-body", "nested-2",
          "function-body-via-map", "function-body-via-filter", "function-body-via-reduce", "function-body-via-tuple-map",
-         "function-body-via-function", "module-body"]
+         "function-body-via-function", "module-body", "module-out-expression"]
 # hosts whose fault only happens when a later statement calls (or instantiates) what the faulty statement defines
 CALLED_HOSTS = {"function-body", "function-body-via-map", "function-body-via-filter", "function-body-via-reduce",
-                "function-body-via-tuple-map", "function-body-via-function", "module-body"}
+                "function-body-via-tuple-map", "function-body-via-function", "module-body", "module-out-expression"}
 
 
 def host_tokens(host, name, ftoks, r):
@@ -159,6 +159,9 @@ def host_tokens(host, name, ftoks, r):
                 ["let", name + "r", "=", "idf", "(", "{", "a", "=", name, "(", "1", ")", "}", ")", ";"])
     if host == "module-body":
         return (["let", name, "=", "module", "{", "arg", "=", "1", "}", "=>", "(", "res", ")", "{", "let", "res", "="] + ftoks + [";", "}", ";"],
+                ["let", name + "r", "=", name, "{", "arg", "=", "2", "}", ";"])
+    if host == "module-out-expression":
+        return (["let", name, "=", "module", "{", "arg", "=", "1", "}", "=>", "("] + ftoks + [")", "{", "let", "res", "=", "1", ";", "}", ";"],
                 ["let", name + "r", "=", name, "{", "arg", "=", "2", "}", ";"])
     raise ValueError(host)
 
